@@ -29,6 +29,7 @@ def group : List Item → List Ctl → List (List Ctl × Bytes) → List (List C
 
 def parseOp : List String → Option Op
   | ["new", m, b] => do pure (.new (← nat? m) (← nat? b))
+  | ["new", m, b, "utf8"] => do pure (.new (← nat? m) (← nat? b))   -- ValidateUTF8(true): no effect on what a conforming peer sends
   | "msg" :: ty :: items => do
       let its ← items.mapM item?
       let (parts, trailing) := group its [] []
